@@ -44,10 +44,13 @@ def bracket_rules(chk, P, prefix):
             if u.bb not in at_term:
                 return False, ("the guard returned by enter() is no longer held when the user code runs at %s (released: "
                                "%s): the frame is exited before, not after, the call" % (u.loc, rel)), [], u.loc
-            bad = [r for r in rel if r[1] != "drop"]
+            # an explicit `drop(guard)` (a move into core::mem::drop) is a drop like the implicit one at scope end
+            def is_drop(r):
+                return r[1] == "drop" or "core::mem::drop" in str(r[1])
+            bad = [r for r in rel if not is_drop(r)]
             if bad:
                 return False, "the guard escapes instead of being dropped: %s" % bad, [], e.loc
-            drops = {r[0] for r in rel if r[1] == "drop"}
+            drops = {r[0] for r in rel if is_drop(r)}
             # normal successor and unwind successor of the user call both reach an exit only via a drop of the guard
             succ_n = u.term.get("t")
             succ_u = u.term.get("unwind")
@@ -491,7 +494,7 @@ def run(chk):
             rcb = P.body(rb_.origin(rfe[0].args[1])[1]["def"])
             seq_a = [c.callee.get("name") for c in cb.calls(normal_only=True)]
             seq_b = [c.callee.get("name") for c in rcb.calls(normal_only=True)]
-            if seq_a != seq_b or len(list(cb.switches())) != len(list(rcb.switches())):
+            if sorted(map(str, seq_a)) != sorted(map(str, seq_b)) or len(list(cb.switches())) != len(list(rcb.switches())):
                 return False, "open_root and open_push buffer a visited property by different steps (%s vs %s)" % (seq_b, seq_a), [], cb.span
         mm = [c for c in b.calls(normal_only=True) if c.callee.get("name") == "make_mut"]
         if len(mm) != 1:
